@@ -3,22 +3,33 @@
   and packet size accepts it: no DataTooBig, no Decode, no Malformed.
 -/
 import FocaModel.Proofs.SentInv
+import FocaModel.Proofs.NetInv
 import FocaModel.Proofs.ErrKinds
 import FocaModel.Props.C07H
+import FocaModel.Props.C20
 namespace Foca.C07H
 open Foca Foca.C07
+
+/-- when only the range of the wire types matters, the bound on incarnations told is the type's own -/
+def wireOnly : Id → Nat := fun _ => 65535
+
+/-- histories with wire-range inputs -/
+abbrev WireHist (E : Env) (s : State) : Prop := WireHistory E s wireOnly
+
+theorem mw_wire {u : Member} (h : MW wireOnly u) : Member.Wire u := (mwire_iff u).1 h.1
 
 /-- **Every datagram of every call has the documented shape.** After any history of calls with wire-range inputs
     (what any `u16`-typed codec decodes, identities within the type's range), every datagram a further call
     hands to the runtime — whatever the call, its bytes, its timer, the RNG draws and the backlog tie order — is
     `header`, or `header ++ count ++ that many encoded members ++ length-prefixed items` (kinds that piggyback), or
     `header ++ length-prefixed items` (Broadcast); the header is addressed to the identity the datagram is handed
-    over for; the members are within the wire range; no item is empty; and nothing else. -/
-theorem every_datagram_has_the_shape (E : Env) {s s' : State} (hreach : WireHistory E s) (op : Op) (orc : Oracle)
-    (hin : InputWire E op) (eff : List Effect) (r : Res) (left : Oracle)
+    over for and every field of it is within the wire range; the members are within the wire range; no item is
+    empty; and nothing else. -/
+theorem every_datagram_has_the_shape (E : Env) {s s' : State} (hreach : WireHist E s) (op : Op) (orc : Oracle)
+    (hin : InputWire E wireOnly op) (eff : List Effect) (r : Res) (left : Oracle)
     (hstep : Foca.step E s op orc = .done s' eff r left) (d : Id) (b : Bytes) (hsend : Effect.send d b ∈ eff) :
-    ∃ h : Header, h.dst = d ∧ DatagramShape E h b := by
-  have := Sent.step E s op orc (Ready.reachable E hreach) hin
+    ∃ h : Header, h.dst = d ∧ HWire h ∧ DatagramShape E (MW wireOnly) h b := by
+  have := Sent.step E wireOnly s op orc (Ready.reachable E hreach) hin
   rw [hstep] at this
   exact this.2 _ hsend
 
@@ -42,14 +53,15 @@ theorem sectionBytes_length {E : Env} (hl : CodecLaws E.codec) {us : List Member
     instance, passes every parsing stage: what the receiver does is `processParsed` on exactly the members and
     items the sender wrote. -/
 theorem shaped_datagram_is_read_back (E : Env) (hl : CodecLaws E.codec) (h : Header) (b : Bytes) (c : Ctx)
-    (hshape : DatagramShape E h b)
+    (hshape : DatagramShape E (MW wireOnly) h b)
     (hhdr : ∀ rest, E.codec.decHeader (E.codec.encHeader h ++ rest) = some (h, rest))
     (hsize : b.length ≤ c.s.cfg.mps) (hmps : c.s.cfg.mps ≤ 65535)
     (hsrc : (h.src == c.s.id || h.src.addr == c.s.id.addr) = false)
     (hdst : Gen.acceptPayload c.s.id h.dst h.msg = true) :
     ∃ (us : List Member) (items : List Bytes), (∀ d ∈ items, 1 ≤ d.length ∧ d.length < 65536) ∧
       handleData E b c = processParsed E h us (tailBytes items) c := by
-  obtain ⟨us, items, hus, hitems, hcase⟩ := hshape
+  obtain ⟨us, items, hus0, hitems, hcase⟩ := hshape
+  have hus : ∀ u ∈ us, Member.Wire u := fun u hu => mw_wire (hus0 u hu)
   rcases hcase with hb | ⟨hk1, hk2, hb⟩ | ⟨hk, hb⟩
   · refine ⟨[], [], by simp, ?_⟩
     rw [hb]
@@ -115,10 +127,10 @@ theorem processParsed_never_rejects (E : Env) (h : Header) (us : List Member) (i
 /-- **No datagram Foca sends is rejected by a peer.** In any history with wire-range inputs, a datagram handed to
     the runtime and delivered to a peer — same codec, reading back the headers it wrote; same packet size, at most
     65535; another address; the datagram addressed to it — is never answered with DataTooBig, Decode or
-    MalformedPacket. -/
-theorem peer_accepts_every_datagram (E : Env) (hl : CodecLaws E.codec)
-    (hhdr : ∀ (h : Header) rest, E.codec.decHeader (E.codec.encHeader h ++ rest) = some (h, rest))
-    {s s' : State} (hreach : WireHistory E s) (op : Op) (orc : Oracle) (hin : InputWire E op)
+    MalformedPacket. Both codec hypotheses hold for the models of the fixed, postcard, bincode and packed codecs
+    (`bundled_codec_laws`, `bundled_header_laws`). -/
+theorem peer_accepts_every_datagram (E : Env) (hl : CodecLaws E.codec) (hhdr : HeaderLaw E.codec)
+    {s s' : State} (hreach : WireHist E s) (op : Op) (orc : Oracle) (hin : InputWire E wireOnly op)
     (eff : List Effect) (r : Res) (left : Oracle) (hstep : Foca.step E s op orc = .done s' eff r left)
     (d : Id) (b : Bytes) (hsend : Effect.send d b ∈ eff)
     (peer : State) (porc : Oracle) (hsize : b.length ≤ peer.cfg.mps) (hmps : peer.cfg.mps ≤ 65535)
@@ -127,9 +139,10 @@ theorem peer_accepts_every_datagram (E : Env) (hl : CodecLaws E.codec)
     match Foca.step E peer (.data b) porc with
     | .done _ _ res _ => ∀ e, res = .err e → ¬ Rejection e
     | .stuck _ => True := by
-  obtain ⟨h, hd, hshape⟩ := every_datagram_has_the_shape E hreach op orc hin eff r left hstep d b hsend
+  obtain ⟨h, hd, hw, hshape⟩ := every_datagram_has_the_shape E hreach op orc hin eff r left hstep d b hsend
   obtain ⟨hacc, hsrc⟩ := hdst h hd
-  obtain ⟨us, items, hlen, hread⟩ := shaped_datagram_is_read_back E hl h b ⟨peer, [], porc⟩ hshape (hhdr h) hsize hmps hsrc hacc
+  obtain ⟨us, items, hlen, hread⟩ := shaped_datagram_is_read_back E hl h b ⟨peer, [], porc⟩ hshape
+    (fun rest => hhdr h rest hw) hsize hmps hsrc hacc
   have hE := processParsed_never_rejects E h us items hlen
   unfold Foca.step Foca.runOp
   simp only [bind_run]
@@ -142,5 +155,112 @@ theorem peer_accepts_every_datagram (E : Env) (hl : CodecLaws E.codec)
     intro e' he'
     cases he'
     exact hE.run _ _ _ hr
+
+/-- **In a cluster**: every datagram that is, or ever was, on the wire of any reachable cluster (`Proofs/NetInv.lean`:
+    any number of instances, any delivery order, duplication or loss, timers in any order, API calls at any time)
+    has the documented shape, for a header the network logged when it was sent — so whichever instance it reaches,
+    if that instance is not at the sender's address, is the addressee, and has the same codec and a packet size of
+    at most 65535 that the datagram does not exceed, it is read back exactly and never rejected
+    (`shaped_datagram_is_read_back`, `processParsed_never_rejects`). -/
+theorem cluster_datagrams_have_the_shape (E : Env) (hl : CodecLaws E.codec) (hhdr : HeaderLaw E.codec)
+    {n : Net} (hreach : NetReach E n) (d : Id) (b : Bytes) (hw : (d, b) ∈ n.wire) :
+    ∃ h ∈ n.sent, h.dst = d ∧ HWire h ∧ DatagramShape E (fun u => Member.Wire u) h b := by
+  obtain ⟨h, hm, q1, q2, q4⟩ := (NetInv.reachable E hl hhdr hreach).2.1 d b hw
+  exact ⟨h, hm, q1, q2, q4.mono (fun u hu => (mwire_iff u).1 hu.1)⟩
+
+/-! ### the codec contract is satisfiable (and holds, on wire-range values, for the bundled codecs' models) -/
+
+theorem natRoundtrip (n : Nat) (rest : Bytes) : decNat (encNat n ++ rest) = some (n, rest) := by
+  induction n with
+  | zero => simp [encNat, decNat]
+  | succ k ih =>
+    have : encNat (k + 1) ++ rest = 1 :: (encNat k ++ rest) := by simp [encNat, List.replicate_succ]
+    rw [this, decNat]
+    simp [ih]
+
+theorem natId_roundtrip (i : Id) (rest : Bytes) : natDecId (natEncId i ++ rest) = some (i, rest) := by
+  unfold natDecId natEncId
+  rw [List.append_assoc, natRoundtrip]
+  simp only []
+  rw [natRoundtrip]
+
+theorem natIdNum_roundtrip (i : Id) (n : Nat) (rest : Bytes) :
+    natDecIdNum (natEncId i ++ encNat n ++ rest) = some (i, n, rest) := by
+  unfold natDecIdNum
+  rw [List.append_assoc, natId_roundtrip]
+  simp only []
+  rw [natRoundtrip]
+
+theorem natMsg_roundtrip (m : Msg) (rest : Bytes) : natDecMsg (natEncMsg m ++ rest) = some (m, rest) := by
+  unfold natDecMsg
+  cases m with
+  | ping n => simp only [natEncMsg, List.append_assoc]; rw [natRoundtrip]; simp only []; rw [natRoundtrip]; rfl
+  | ack n => simp only [natEncMsg, List.append_assoc]; rw [natRoundtrip]; simp only []; rw [natRoundtrip]; rfl
+  | pingReq t n =>
+    simp only [natEncMsg, List.append_assoc]; rw [natRoundtrip]; simp only []
+    rw [← List.append_assoc, natIdNum_roundtrip]; rfl
+  | indirectPing t n =>
+    simp only [natEncMsg, List.append_assoc]; rw [natRoundtrip]; simp only []
+    rw [← List.append_assoc, natIdNum_roundtrip]; rfl
+  | indirectAck t n =>
+    simp only [natEncMsg, List.append_assoc]; rw [natRoundtrip]; simp only []
+    rw [← List.append_assoc, natIdNum_roundtrip]; rfl
+  | forwardedAck t n =>
+    simp only [natEncMsg, List.append_assoc]; rw [natRoundtrip]; simp only []
+    rw [← List.append_assoc, natIdNum_roundtrip]; rfl
+  | announce => simp only [natEncMsg]; rw [natRoundtrip]; rfl
+  | feed => simp only [natEncMsg]; rw [natRoundtrip]; rfl
+  | gossip => simp only [natEncMsg]; rw [natRoundtrip]; rfl
+  | broadcast => simp only [natEncMsg]; rw [natRoundtrip]; rfl
+  | turnUndead => simp only [natEncMsg]; rw [natRoundtrip]; rfl
+
+/-- the unbounded codec reads back every header, whatever follows -/
+theorem natCodec_header_law (h : Header) (rest : Bytes) :
+    natCodec.decHeader (natCodec.encHeader h ++ rest) = some (h, rest) := by
+  simp only [natCodec, natEncHeader, natDecHeader, List.append_assoc]
+  rw [natId_roundtrip]
+  simp only []
+  rw [natRoundtrip]
+  simp only []
+  rw [natId_roundtrip]
+  simp only []
+  rw [natMsg_roundtrip]
+
+/-- … and every member: it satisfies the codec contract without any range restriction -/
+theorem natCodec_laws : CodecLaws natCodec where
+  member_rt := fun m rest _ => by
+    simp only [natCodec, natEncMember, natDecMember, List.append_assoc]
+    rw [natId_roundtrip]
+    simp only []
+    rw [natRoundtrip]
+    simp only []
+    rw [natRoundtrip]
+    simp only [(C20.stTag_roundtrip m.st).1]
+
+/-- the member law holds for the models of the hand-written and the two bundled codecs (on wire-range members) -/
+theorem bundled_codec_laws : CodecLaws fixedCodec ∧ CodecLaws postcardCodec ∧ CodecLaws bincodeCodec ∧ CodecLaws packedCodec :=
+  ⟨⟨fun m rest h => C20.member_roundtrip C20.fixed_laws m rest ⟨⟨h.1, h.2.1⟩, h.2.2⟩⟩,
+   ⟨fun m rest h => C20.member_roundtrip C20.postcard_laws m rest ⟨⟨h.1, h.2.1⟩, h.2.2⟩⟩,
+   ⟨fun m rest h => C20.member_roundtrip C20.bincode_laws m rest ⟨⟨h.1, h.2.1⟩, h.2.2⟩⟩,
+   ⟨fun m rest h => C20.packed_member_roundtrip m rest ⟨⟨h.1, h.2.1⟩, h.2.2⟩⟩⟩
+
+theorem hwire_iff (h : Header) : HWire h ↔ C20.Header.Wire h := by
+  unfold HWire C20.Header.Wire IdWire C20.Id.Wire
+  have hm : MsgWire h.msg ↔ C20.Msg.Wire h.msg := by
+    cases h.msg <;> simp [MsgWire, C20.Msg.Wire, IdWire, C20.Id.Wire]
+  rw [hm]
+
+/-- the header law holds for the models of the hand-written and the two bundled codecs: with `bundled_codec_laws`
+    the whole-history theorems of this file and of `Props/C10S.lean` apply to each of them -/
+theorem bundled_header_laws : HeaderLaw fixedCodec ∧ HeaderLaw postcardCodec ∧ HeaderLaw bincodeCodec ∧ HeaderLaw packedCodec :=
+  ⟨fun h rest hw => C20.header_roundtrip C20.fixed_laws h rest ((hwire_iff h).1 hw),
+   fun h rest hw => C20.header_roundtrip C20.postcard_laws h rest ((hwire_iff h).1 hw),
+   fun h rest hw => C20.header_roundtrip C20.bincode_laws h rest ((hwire_iff h).1 hw),
+   fun h rest hw => C20.packed_header_roundtrip h rest ((hwire_iff h).1 hw)⟩
+
+/-- non-vacuity of the two codec hypotheses of `peer_accepts_every_datagram`, `cluster_datagrams_have_the_shape`
+    and of the cluster theorems of `Props/C10S.lean`: one codec satisfies both, over every model value -/
+example : CodecLaws natCodec ∧ HeaderLaw natCodec :=
+  ⟨natCodec_laws, fun h rest _ => natCodec_header_law h rest⟩
 
 end Foca.C07H
